@@ -1,11 +1,12 @@
 import Lc.Driver.Util
 import Lc.Driver.Base
 import Lc.Driver.C12
+import Lc.Driver.Scenario
 
 open Lean Lc.Driver
 
 def handlers : List (String → Json → Option Json) :=
-  [Base.handle, C12.handle]
+  [Base.handle, C12.handle, Scenario.handle]
 
 def dispatch (j : Json) : Json :=
   let op := getStr j "op"
